@@ -22,7 +22,7 @@ DEFAULTS = {
 
 class Prop:
     def __init__(self, pid, module, feature, functions, bounds, outside, assumptions=(), stubs=(),
-                 rules=(), runs=None, design_ref="", trusted=(), claim="", note="", extra_modules=()):
+                 rules=(), runs=None, design_ref="", trusted=(), claim="", note="", extra_modules=(), extra_engines=()):
         self.id = pid
         self.module = module
         self.feature = feature
@@ -38,6 +38,7 @@ class Prop:
         self.trusted = list(trusted)
         self.claim = claim
         self.extra_modules = list(extra_modules)
+        self.extra_engines = list(extra_engines)
         self.note = note or ("Trusted: Kani's MIR->goto translation, CBMC's bit-precise semantics and SAT back end, the "
                              "harness oracle. Bounds: " + bounds + ". Outside the claim: " + outside)
 
@@ -323,14 +324,18 @@ _add(Prop(
            "thorough); ConstHz step at 6 concrete (hz, rate) pairs (any pair: thorough); Hz pulls: 3 frames; noise: range "
            "and no-panic for EVERY u64 seed (2 frames), clone/restart/shifted-seed agreement and the hash value at 6 "
            "concrete seeds incl. u64::MAX; simplex: any stored phase in [0, 65536)",
-    outside="the phase ADVANCE 'next = (phase + step) wrapped into [0,1)': this Kani/CBMC evaluates float `%` to 0.0 "
-            "for every operand pair (measured), so nothing downstream of `%` is asserted by these harnesses; the simplex "
+    outside="(the phase ADVANCE 'next = (phase + step) wrapped into [0,1)' is NOT decided by the Kani harnesses - this "
+            "Kani/CBMC evaluates float `%` to 0.0 for every operand pair - but by the second engine lib/phase_smt.py: the MIR "
+            "of Phase::next_phase_wrapped_to / next_phase is symbolically executed into SMT-LIB and cvc5/z3 show, for every "
+            "stored phase, every finite step >= 0 and both moduli dasp uses, that the call returns the stored phase and leaves "
+            "a phase in [0,m) that differs from phase+step by a non-negative integer multiple of m); outside: the simplex "
             "amplitude bound |out| <= 1 (nine dependent symbolic f64 products with a 1.6e-4 margin); numeric accuracy of "
             "sin; purity of noise at symbolic seeds (equivalence of two chains of symbolic 64-bit multipliers: > 900 s)",
     stubs=["dasp_signal::ops::f64::sin -> recording marker returning a harness-chosen value in [-1,1] (sine_structure, "
            "sine_argument_any_phase)"],
     assumptions=["|sin(x)| <= 1 (CBMC's own model, or the marker's contract)"],
     rules=[{"match": r"sine_argument_any_phase|const_hz_step_any", "tier": "thorough", "timeout": 3000}],
+    extra_engines=["phase_smt"],
     design_ref="DESIGN.md §4 C17",
     claim="The solver shows for every finite non-negative step that the phase starts at 0, every yielded phase is the "
           "stored one and the stored one stays in [0,1); exactly one step / frequency frame is consumed per output; "
